@@ -7,9 +7,9 @@ CONSTANTS
   MaxBurns = 2
   MaxMints = 1
   Merger = "overwrite"
-  TicketStore = "first"
+  TicketStore = "all"
   BurnsFirst = TRUE
-  MintKey = "to"
+  MintKey = "minter"
 VIEW GView
 INVARIANTS GPrint
 CHECK_DEADLOCK FALSE
